@@ -156,7 +156,7 @@ def generate(rng, tier):
             for sc in scripts(c, p):
                 yield mk(c, p, True, True, sc)
                 yield mk(c, p, False, False, [["conn", 1, 250_000]] + sc)
-    n = 5000 if tier == "quick" else 60000
+    n = 3000 if tier == "quick" else 60000
     for _ in range(n):
         c = rng.choice(COOLS if rng.random() < 0.9 else COOLS[1:])
         p = rng.choice(PERS)
